@@ -72,7 +72,7 @@ Theorem last_inclusion_sound (t : tree) (terms : list bytes) (i : N) (d : bytes)
   verify_last_inclusion H terms i (leafh d) (th t) = true ->
   (exists pre, leaves t = pre ++ [d]) \/ Collision.
 Proof.
-  intros F V. unfold verify_last_inclusion in V. destruct (i =? 0); [discriminate|].
+  intros F V. unfold verify_last_inclusion in V. destruct (_ || _); [discriminate|].
   apply list_eqb_eq in V. rewrite eval_last_climb in V.
   assert (Hok : terms_ok (last_steps terms)).
   { unfold last_steps, terms_ok. apply Forall_map. simpl. exact F. }
